@@ -130,6 +130,7 @@ pub fn guess_and_validate(len: usize, hb: bool) {
                         racy: kani::any(),
                     };
                     kani::assume(e.ord <= 4 && (e.op as usize) < 4);
+                    kani::assume(e.vc[0] as usize <= 2 * M && e.vc[1] as usize <= 2 * M);
                     kani::assume((e.ts as usize) < total_bound());
                     kani::assume((e.loc as usize) < NLOC);
                     kani::assume(e.kind <= K_ITER);
@@ -211,7 +212,7 @@ pub fn guess_and_validate(len: usize, hb: bool) {
                     if hb {
                         // vector clock: program order, then the acquire join with what the location publishes
                         let mut base = if j == 0 { [0u8; T] } else { VH_TEV[t][j - 1].vc };
-                        base[t] += 1;
+                        base[t] = base[t].wrapping_add(1);
                         let is_load = e.kind == K_LOAD;
                         let is_rmw = e.kind == K_FETCH_ADD;
                         let is_iter = e.kind == K_ITER;
